@@ -135,7 +135,7 @@ func (lex *Lexer) Lex() *token.Token {
 
         html := |*
             any_line+ -- '<?' => {
-                lex.ungetStr("<")
+                if lex.te < lex.pe { lex.ungetStr("<") } // a trailing '<' can only start an open tag when more input follows
                 lex.setTokenPosition(tkn)
                 tok = token.T_INLINE_HTML;
                 fbreak;
